@@ -1,6 +1,6 @@
 """C14 — math expressions evaluate as C arithmetic: the emitted C of one-statement parsers (llsym, all variables symbolic at
 full width) against our own C-precedence parse + bit-vector evaluation of the expression's source text."""
-import itertools, random, time, traceback
+import itertools, random, time, traceback, zlib
 import z3
 from engines import chk, nm, l3 as l3mod, absm, stepcmp, symx, cparse, cexpr as C, l3check, replay, llsym
 from engines.cexpr import CV
@@ -277,7 +277,7 @@ def work(job):
         elif kind == 'boolc':
             sites = ['ifact'] + ([] if uses_last(ast) else ['ifpoint'])
         if job['tier'] == 'quick' and len(sites) > 2:
-            rnd = random.Random(hash(job['text']) & 0xffff)
+            rnd = random.Random(zlib.crc32(job["text"].encode()) & 0xffff)
             sites = sites[:1] + [rnd.choice(sites[1:])]
         for site in sites:
             out['findings'] += check_site(ast, job['text'], job['types'], site, st, job['tname'])
